@@ -108,6 +108,10 @@ def run(ctx):
             fnum.compare_static(ctx, interp, case, res, fp.failer(ctx, case))
     try:
         fp.explore(ctx, drv, 350 if ctx.tier == "quick" else 2500, per_case, gen=gen, graph_corr=False, pipe_corr=True)
+        # operators whose WEIGHT operand is a runtime tensor (tf.matmul with a non-constant right-hand side becomes FULLY_CONNECTED;
+        # convolutions with a computed filter), under the static-range configs
+        fp.explore(ctx, drv, 24 if ctx.tier == "quick" else 200, per_case, gen=lambda rng_, i: fp.gen_runtime_weight(rng_, mode=rng_.choice(["a8w8", "a16w8"])),
+                   graph_corr=False, pipe_corr=True)
     finally:
         interp.close()
         drv.close()
